@@ -161,7 +161,7 @@ func c10ReadAfterLoad(c *Ctx) {
 	}
 	// 2. loadRange propagates loadChunk errors
 	if fn := c.mustFn("sparseFileLoader.loadRange"); fn != nil {
-		sites, bad := errPropagates(c, fn, func(name string, _ *ssa.Call) bool { return name == "(*desync.sparseFileLoader).loadChunk" }, errPropOpts{})
+		sites, bad := errPropagates(c, fn, func(name string, _ *ssa.Call) bool { return name == "(*desync.sparseFileLoader).loadChunk" }, errPropOpts{maxVisits: 3})
 		switch {
 		case sites == 0:
 			c.bad("sparseFileLoader.loadRange:errors", fn.Pos(), "loadRange does not call loadChunk")
